@@ -70,8 +70,12 @@ def value_atom(field, v, native_cidr: bool):
         if native_cidr:
             return atom(("cidr", field, str(net)))
         if net.version != 4:
-            raise OutsideDomain("IPv6 expansion is C18's subject")
-        pats = cidr_patterns_v4(net)
+            # which patterns an IPv6 network expands to is C18's subject; here only the structure of the
+            # query around them is checked, so the patterns are taken from the library itself
+            from sigma.types import SigmaCIDRExpression
+            pats = SigmaCIDRExpression(v[1]).expand()
+        else:
+            pats = cidr_patterns_v4(net)
         fs = [atom(("str", field, tuple(STAR if ch == "*" else ("c", ch) for ch in p), False)) for p in pats]
         return fs[0] if len(fs) == 1 else OR(fs)
     if k == "cmp":
